@@ -549,6 +549,24 @@ def external_static(case):
     return False
 
 
+def normal_subpath(sub):
+    segs = sub.split('/')
+    return sub != '' and all(x != '' for x in segs[:-1]) and all(x not in ('.', '..') for x in segs)
+
+
+def external_base_and_subpath(case):
+    """(the registered base URL as urllib normalises it — scheme lower-cased, request scheme for a '//…' name, a
+    trailing '/' — , the asset's subpath)"""
+    for url, spec, _ in static_regs(case)[0]:
+        if (case.get('path') or '').startswith(spec):
+            base = url
+            if base.startswith('//'):
+                base = case['env']['scheme'] + ':' + base
+            sch = base.split(':', 1)[0]
+            return sch.lower() + base[len(sch):], case['path'][len(spec):]
+    return None, None
+
+
 def classify(case, problems, impl_url=None):
     """known findings: a *narrow* decidable predicate of the case (and, for F-C17d, of the first two characters of
     the output) per finding, each explaining only the clauses that defect can break; a case is attributed to a
@@ -624,6 +642,21 @@ def oracle(case):
         a = anchor_text(o.get('anchor'))
         if d.get('anchor') != a:
             problems.append('anchor: decoded %r, supplied %r' % (d.get('anchor'), a))
+    # 2b. an external static registration: the registered base URL (scheme, authority, base path) is the prefix of the
+    #     result and the rest of the path decodes back to the asset's subpath (subpaths in normal form: no empty, '.', '..'
+    #     segment, no leading '/' — urljoin applies RFC 3986 reference resolution to the others)
+    if ext and d['split'] is not None:
+        base, sub = external_base_and_subpath(case)
+        if sub == '' or normal_subpath(sub):
+            usch = url.split(':', 1)[0]
+            lurl = usch.lower() + url[len(usch):]        # a scheme is case-insensitive (urljoin lower-cases it, an empty subpath returns the base as registered)
+            rest = lurl[len(base):].split('?', 1)[0].split('#', 1)[0] if lurl.startswith(base) else None
+            try:
+                back = None if rest is None else strict_unquote(rest)
+            except (UnicodeDecodeError, NonAscii):
+                back = None
+            if back != sub:
+                problems.append('static-base: %r is not the registered base %r followed by the quoted subpath %r' % (url, base, sub))
     # 3. overrides / application URL
     if helper in URL_HELPERS:
         if o.get('app_url') is not None:
@@ -695,6 +728,12 @@ def raw_impl(case):
             except ValueError:
                 return {'r': None}
             return {'r': {'scheme': s.scheme, 'netloc': s.netloc, 'path': s.path, 'query': s.query, 'fragment': s.fragment}}
+        if op == 'urljoin':
+            from urllib.parse import urljoin as _uj
+            try:
+                return {'r': _uj(case['base'], case['s'])}
+            except ValueError:
+                return {'r': 'outside'}
         if op == 'bracket':
             try:
                 import urllib.parse as _up
@@ -730,6 +769,8 @@ def raw_model(case, mo):
         return {'r': T(r)}
     if op == 'bracket':
         return {'r': r}
+    if op == 'urljoin':
+        return {'r': r if isinstance(r, str) else T(r)}
     if op == 'urlencode':
         return {'r': T(r), 'expand': [[T(k), T(v)] for k, v in mo['expand']]}
     if op == 'urlsplit':
@@ -977,6 +1018,12 @@ STATIC_SETS = [
     [{'name': '//cdn.example.com/x', 'spec': 'c17pkg:cdn/'}],
     [{'name': 'my static', 'spec': 'c17pkg:static/'}, {'name': 'https://cdn.example.com/a%20b/', 'spec': 'c17pkg:static/sub/'}],
     [{'name': 'é', 'spec': 'c17pkg:u/'}],
+    [{'name': 'http://cdn.example.com/assets', 'spec': 'c17pkg:cdn/'}],                       # no trailing slash
+    [{'name': 'http://cdn.example.com', 'spec': 'c17pkg:cdn/'}],                              # no path at all
+    [{'name': 'https://cdn.example.com:8443/a/b/', 'spec': 'c17pkg:cdn/'}],
+    [{'name': '//cdn.example.com/x/', 'spec': 'c17pkg:cdn/'}, {'name': 'static', 'spec': 'c17pkg:static/'}],
+    [{'name': 'https://[2001:db8::1]/s/', 'spec': 'c17pkg:cdn/'}],
+    [{'name': 'HTTP://CDN.example.com/Up/', 'spec': 'c17pkg:cdn/'}],
 ]
 
 
@@ -1022,10 +1069,41 @@ def gen_case(rng):
         elif r < 0.12:
             case['path'] = spec
         else:
-            segs = [rng.choice(['css', 'js', 'img', 'a b', 'é', 'x+y', 'v1.2', '日本', 'a%b', 'q?x', 'h#i', "it's", 'a:b', 'a;b', '..', '.', ''])
-                    if rng.random() < 0.8 else gen_text(rng, 4, p_control=0.0).replace('/', '_') for _ in range(rng.choice([1, 1, 2, 3]))]
-            case['path'] = spec + '/'.join(segs) + rng.choice(['', '', '.css', '/'])
+            case['path'] = spec + gen_subpath(rng)
     return case
+
+
+EXT_BASES = ['http://cdn.example.com/', 'http://cdn.example.com/assets/', 'https://cdn.example.com/a/b/', 'https://cdn.example.com/a%20b/',
+             'HTTP://CDN.example.com/x/', 'http://cdn.example.com:8080/img/', 'https://[2001:db8::1]/s/', 'http://cdn.example.com/a/b', 'ftp://h/d/',
+             'http://cdn.example.com', 'http://h//x/', 'http://h/a/../b/', 'http://h/./']
+SUB_SEGS = ['css', 'js', 'a b', 'é', '日本', 'x+y', 'v1.2', 'a%b', 'q?x', 'h#i', "it's", 'a:b', 'a;b', 'icons:home.svg', 'http:x', 'a+b.c:d', 'HTTP:',
+            'x:', ':y', '..', '.', '', '...', '%2e%2e', '~u', '@', '😀']
+
+
+def gen_subpath(rng):
+    """a static asset subpath: segments with ':', '?', '#', '%', spaces, scheme-like prefixes, multi-byte text, '..', '.',
+    empty segments ('//'), optionally a leading or trailing '/'"""
+    segs = [rng.choice(SUB_SEGS) if rng.random() < 0.85 else gen_text(rng, 4, p_control=0.0).replace('/', '_') for _ in range(rng.choice([1, 1, 2, 2, 3, 4]))]
+    s = '/'.join(segs)
+    r = rng.random()
+    if r < 0.08:
+        s = '/' + s
+    elif r < 0.12:
+        s = '//' + s
+    return s + rng.choice(['', '', '', '.css', '/'])
+
+
+def gen_urljoin(rng):
+    ref = gen_subpath(rng)
+    r = rng.random()
+    if r < 0.6:
+        from urllib.parse import quote as _q
+        ref = _q(ref)                       # the shape the static branch produces
+    elif r < 0.75:
+        from urllib.parse import quote as _q
+        ref = _q(ref, safe="/~!$&'()*+,=:@")   # ... and the shape a too generous safe set would produce
+    ref = ref.replace(';', '')
+    return {'op': 'urljoin', 'base': rng.choice(EXT_BASES), 's': ref}
 
 
 def gen_bracket(rng):
@@ -1069,9 +1147,11 @@ def gen_bracket(rng):
 
 
 def gen_raw(rng):
-    op = rng.choice(['quote', 'quote', 'quote_plus', 'urlencode', 'urlsplit', 'urlsplit', 'parse_qsl', 'unquote', 'unquote_plus', 'bracket'])
+    op = rng.choice(['quote', 'quote', 'quote_plus', 'urlencode', 'urlsplit', 'urlsplit', 'parse_qsl', 'unquote', 'unquote_plus', 'bracket', 'urljoin', 'urljoin'])
     if op == 'bracket':
         return {'op': op, 's': gen_bracket(rng)}
+    if op == 'urljoin':
+        return gen_urljoin(rng)
     if op in ('quote', 'quote_plus'):
         safe = rng.choice(['', '/', P_trav.PATH_SEGMENT_SAFE, P_trav.PATH_SAFE, P_url.QUERY_SAFE, ':@', '~', '%', '+', ' ', 'é/'])
         return {'op': op, 's': gen_text(rng, 8, p_control=0.08), 'safe': safe}
@@ -1158,6 +1238,10 @@ def run_cases(ctx, cases, dist, res, stream):
                  'with-port' if ':' in case['env']['host'] else 'plain')
             if external_static(case):
                 bump(dist, 'external_static')
+                sub = external_base_and_subpath(case)[1]
+                bump(dist['external_subpath'], 'empty' if sub == '' else 'normal' if normal_subpath(sub) else 'needs-resolution')
+                if re.match(r'[A-Za-z][A-Za-z0-9+.-]*:', sub):
+                    bump(dist['external_subpath'], 'scheme-like first segment')
         else:
             m, v = raw_check(case, mo)
             bump(dist['raw_op'], case['op'] + ('' if case['op'] != 'bracket' else ':accepted' if raw_impl(case)['r'] else ':refused'))
@@ -1398,7 +1482,7 @@ WITNESS_C17A = {'op': 'url', 'helper': 'route_path',
 def run(ctx):
     rng = ctx.rng
     dist = {'helper': {}, 'outcome': {}, 'overrides': {}, 'query_form': {}, 'elements': {}, 'host_kind': {}, 'raw_op': {},
-            'outside_model': 0, 'external_static': 0, 'history_len': {}, 'second_pass_calls': 0}
+            'outside_model': 0, 'external_static': 0, 'external_subpath': {}, 'history_len': {}, 'second_pass_calls': 0}
     res = {'mismatches': [], 'violations': [], 'agreeing': 0, '_seen': set(), '_nontriv': 0, '_done': []}
     corpus = [c for _, c in ctx.corpus()]
     run_cases(ctx, corpus, dist, res, 'corpus')
@@ -1420,6 +1504,9 @@ def run(ctx):
     leaves = list(leaf_cube())
     run_cases(ctx, leaves, dist, res, 'leaf-cube')
     dist['non_utf8_bytes'] = probe_non_utf8()
+    # external static cube (exhaustive within its scope)
+    scube = list(static_cube())
+    run_cases(ctx, scube, dist, res, 'static-cube')
     # history independence: twin histories (equal-but-differently-printed values in one slot), then every helper
     # call of this run once more in a shuffled order
     hists = [gen_history(rng) for _ in range(ctx.n(300, 2000))]
@@ -1431,18 +1518,18 @@ def run(ctx):
     excl_note = 'excluded point (Host "[::1" without its "]", _scheme=https; outside the domain): impl %r, urlsplit %s' % (
         excl_out, std_decode(excl_out.get('url', ''), 0)['split'])
     res['violations'] = shrink_violations(res['violations'])
-    total = len(corpus) + done + len(raws) + len(cube) + len(leaves) + len(hists)
+    total = len(corpus) + done + len(raws) + len(cube) + len(leaves) + len(scube) + len(hists)
     return {'evaluations': total, 'distinct_nontrivial': res['_nontriv'], 'rule': RULE, 'agreeing': res['agreeing'],
             'samples': samples + raws[:2] + hists[:1], 'mismatches': res['mismatches'][:20], 'violations': res['violations'],
             'distribution': dist, 'exhaustive': False,
-            'notes': [excl_note, 'leaf cube %d cases (%d leaves x 6 slots x 8 helpers where the slot exists); a non-UTF-8 bytes leaf (outside the domain): %s' % (len(leaves), len(LEAF_POOL), dist['non_utf8_bytes']), 'corpus %d, helper cases %d, encoder/parser cases %d, override cube %d, twin histories %d, second-pass calls %d' % (len(corpus), done, len(raws), len(cube), len(hists), dist['second_pass_calls']),
+            'notes': [excl_note, 'external static cube %d cases' % len(scube), 'leaf cube %d cases (%d leaves x 6 slots x 8 helpers where the slot exists); a non-UTF-8 bytes leaf (outside the domain): %s' % (len(leaves), len(LEAF_POOL), dist['non_utf8_bytes']), 'corpus %d, helper cases %d, encoder/parser cases %d, override cube %d, twin histories %d, second-pass calls %d' % (len(corpus), done, len(raws), len(cube), len(hists), dist['second_pass_calls']),
                       'history clause: every history is run in sequence after one cache reset and call by call after a reset each; a shuffled sample of the helper calls of the run is repeated (quick: all; thorough: 12 000); results must be equal',
                       'each helper case runs the helper, its *_path/*_url sibling and (with _app_url) the call without _scheme/_host/_port on the real code'],
             'assumptions': [
                 'Host / _host / _scheme / _port / _app_url values are the caller\'s and are generated well-formed (the helpers copy them verbatim)',
                 'SCRIPT_NAME is empty or starts with "/" (PEP 3333); non-root resources have non-empty names; route patterns start with "/"',
                 'leaf values reach the helpers as str, bytes (UTF-8), None, bool, int, float (incl. exponent forms, -0.0, inf, nan), Decimal, objects with __str__; the text the property speaks about is Python\'s own str(v), computed by the harness and handed to the model as data; `if anchor:` truthiness is Python\'s; a bytes *query value* is a sequence of ints for is_nonstr_iter and a non-UTF-8 bytes leaf is not text: both outside the domain (the latter is probed and reported)',
-                'external static base + subpath goes through urllib.parse.urljoin: only subpaths without "", ".", ".." segments are modelled (others counted as outside_model)'],
+                'external static: urllib.parse.urljoin is modelled (reference resolution included); the oracle clause "registered base + quoted subpath" is stated for subpaths in normal form (no empty, ".", ".." segment, no leading "/") — the others are resolved by urljoin per RFC 3986 (a leading "//" even replaces the authority) and are covered by the correspondence only; registered base URLs are scheme://authority/dir/ without params, query, fragment'],
             'trusted_base': ['urllib.parse (urlsplit, parse_qsl, unquote, quote_from_bytes) and WebOb (host_url, application_url, script_name decoding, GET parsing) are modelled and tied by this correspondence run only',
                              'Python str(v) of every non-str leaf (int, bool, float, Decimal, None, custom __str__) and truthiness of the anchor are computed by the harness with the same interpreter and given to the model as text; dict / MultiDict item order',
                              'extract/c17.py (safe-set call sites) — its output is what the model quotes with; a wrong table shows as a correspondence mismatch']}
@@ -1478,6 +1565,22 @@ def leaf_cube():
                 if slot.startswith('q') and i % 2:
                     c['ovr']['query']['form'] = 'dict'
                 yield c
+
+
+def static_cube():
+    """small-scope exhaustive: every external (URL-named) static registration of STATIC_SETS x every awkward first
+    segment of SUB_SEGS (alone, and followed by a second segment) x static_url / static_path"""
+    env = {'scheme': 'https', 'host': 'example.com', 'server_name': 'localhost', 'server_port': '443', 'script_name': ''}
+    for st in STATIC_SETS:
+        ext = [x for x in st if urlsplit(x['name'] if x['name'].endswith('/') else x['name'] + '/').netloc]
+        if not ext:
+            continue
+        spec = ext[0]['spec'] if ext[0]['spec'].endswith('/') else ext[0]['spec'] + '/'
+        for seg in SUB_SEGS:
+            for sub in (seg, seg + '/é b.css'):
+                for helper in ('static_url', 'static_path'):
+                    yield {'op': 'url', 'helper': helper, 'env': env, 'routes': [], 'statics': st, 'path': spec + sub,
+                           'ovr': {'query': {'t': 'str', 'v': 'v=1'}}}
 
 
 NON_UTF8 = {'bx': 'ff41'}
@@ -1593,7 +1696,7 @@ def search(ctx):
                 return finish(False)
         if consider({'op': 'urlencode', 'pairs': [[t, t], [t, None], [t, [t, ch]], [ch, []]]}):
             return finish(False)
-    for case in leaf_cube():
+    for case in itertools.chain(leaf_cube(), static_cube()):
         if consider(case):
             return finish(False)
     # twin histories: every group of equal-but-differently-printed values, both orders, in every slot kind
